@@ -270,6 +270,20 @@ func text(sb *strings.Builder, t Term) {
 				}
 			}
 			sb.WriteByte('"')
+		case t.F == "$dot" && len(t.Args) == 2:
+			// the same term as [H|T], written as a plain compound
+			sb.WriteString("'.'(")
+			text(sb, t.Args[0])
+			sb.WriteByte(',')
+			text(sb, t.Args[1])
+			sb.WriteByte(')')
+		case t.F == "$bar" && len(t.Args) == 2:
+			// [H|T] written literally (no flattening of the tail)
+			sb.WriteByte('[')
+			text(sb, t.Args[0])
+			sb.WriteByte('|')
+			text(sb, t.Args[1])
+			sb.WriteByte(']')
 		case t.F == "$raw" && len(t.Args) == 1:
 			sb.WriteString(string(t.Args[0].(Atom)))
 		case t.F == "." && len(t.Args) == 2:
@@ -424,6 +438,9 @@ func ExpandStrings(t Term, mode string) Term {
 	c, ok := t.(*Cmp)
 	if !ok {
 		return t
+	}
+	if (c.F == "$dot" || c.F == "$bar") && len(c.Args) == 2 {
+		return &Cmp{F: ".", Args: []Term{ExpandStrings(c.Args[0], mode), ExpandStrings(c.Args[1], mode)}}
 	}
 	if c.F == "$str" && len(c.Args) == 1 {
 		s := string(c.Args[0].(Atom))
